@@ -134,3 +134,27 @@ Fixpoint sc_run (h : shared) (os : list sc_op) : list (nat * report) :=
 
 (* events delivered to watchers by a shared-component script *)
 Definition sc_events (os : list sc_op) : list (nat * status) := snd (rep_run [] (sc_run shared0 os)).
+
+(* ---- lifecycle brackets: graph.StartAll/ShutdownAll and Extensions.Start/Shutdown ------------
+   What the service itself reports around a component's own Start/Shutdown (during which the
+   component may report anything through its host):
+     Start:    ReportStatus Starting; comp.Start — error: ReportStatus PermanentError (and abort)
+                                                 — nil:   ReportOKIfStarting
+     Shutdown: ReportStatus Stopping; comp.Shutdown — error: ReportStatus PermanentError
+                                                    — nil:   ReportStatus Stopped              *)
+Inductive lc_op :=
+| LcStartBegin (i : nat) | LcReport (i : nat) (s : status) | LcStartOk (i : nat) | LcStartErr (i : nat)
+| LcStopBegin (i : nat) | LcStopOk (i : nat) | LcStopErr (i : nat).
+
+Definition lc_report (o : lc_op) : nat * report :=
+  match o with
+  | LcStartBegin i => (i, RStatus Starting)
+  | LcReport i s => (i, RStatus s)
+  | LcStartOk i => (i, RAutoOK)
+  | LcStartErr i => (i, RStatus PermanentError)
+  | LcStopBegin i => (i, RStatus Stopping)
+  | LcStopOk i => (i, RStatus Stopped)
+  | LcStopErr i => (i, RStatus PermanentError)
+  end.
+
+Definition lc_events (os : list lc_op) : list (nat * status) := snd (rep_run [] (map lc_report os)).
